@@ -4,6 +4,11 @@ _BASE_NOTE = ("Trusted: CrossHair's symbolic models of str/int/list and z3 (for 
               "bounds per condition as written to evidence (pre: lines). Nothing is claimed outside the bounds.")
 
 CLAIMS = {
+    "C17": {
+        "technique": "bounded symbolic execution (CrossHair/z3) over event-stream choice variables: the real subscribe / AsyncMap pipeline on a deterministic event loop against a per-event reference",
+        "text": "Every source stream of 0..3 (thorough 4) events with 9 outcome combinations per event, loop ticks before events, sync/async subscription and field resolvers: one result per event in order, k-th data and errors are exactly event k's, the stream ends with the source (N+1 __anext__ calls). 4 refused request kinds raise the documented exception before the source is consumed.",
+        "note": _BASE_NOTE + " Event loop: DetLoop with a constant clock, real asyncio scheduling otherwise.",
+    },
     "C08": {
         "technique": "bounded symbolic execution (CrossHair/z3) over schedule choice variables: the real executors and runtimes run under every completion order of in-flight resolver tasks (stub pool / deterministic loop) and are compared with the blocking baseline",
         "text": "For 6 operation templates, 4 resolver kinds on 3 field groups, and 4 executor/runtime configurations, every linear order in which up to 6 pending tasks complete is decided: result done (never pending), ordered data and error multiset equal to the BlockingExecutor baseline, unexpected exceptions surface as the failure of the overall result.",
